@@ -659,6 +659,7 @@ def _eval_sizes(ev, db, thorough, fail, tick):
             base_cache[n_] = ev.F('Boolean', ev.build(('s',) + tuple(range(1, n_ + 1))))
         return base_cache[n_]
     shapes = [(3,), (10,), (27,), (28,), (30,), (31,), (10, 10), (13, 14), (14, 14), (15, 16), (16, 16), (11, 11, 11), (20, 14, -3), (16, -33), (27, -2), (28, -2), (-3, 27), (1, 1, 1), (0, 5),
+              (22, 22, 22), (16, 16, 16, 16), (27, 27, 27), (31, 31, 31),       # products of 2^64 and more elements: a 64-bit accumulator wraps (2^64 to exactly 0)
               (-13, -13, -97, -131, -125), (-131, -125, -97, -13, -13), (-125, -131, -13, -97, -13)]        # 268435375 elements: just below SET_INFINITY, in three factor orders
     if thorough:
         shapes += [(a, b) for a in range(8, 31, 2) for b in range(8, 31, 3)] + [(a, b, c) for a in (4, 8, 12, 16) for b in (8, 10, 12) for c in (8, 12, 16, -7)]
